@@ -32,6 +32,11 @@ type udpOp struct {
 	Replies [][2]int `json:"replies,omitempty"`
 	N       int      `json:"n,omitempty"`
 	Port0   bool     `json:"port0,omitempty"` // destination port 0: the kernel refuses the send (EINVAL)
+	// Kind "stray": not a client datagram but a datagram sent to the client's NAT socket by a
+	// sender the client never addressed (IPv4 or IPv6 loopback socket of the harness)
+	StrayV6 bool `json:"stray_v6,omitempty"`
+	Skipped bool `json:"skipped,omitempty"` // could not be run (the client had no known NAT socket): left out of the case
+	sport   int
 }
 type udpCaseSpec struct {
 	Cfg      []cfgKey `json:"cfg"`
@@ -118,6 +123,7 @@ type udpOpObs struct {
 	Unreported int // datagrams that reached the client without an OK report
 	Stale      int // datagrams at a target that do not belong to this operation
 	Err        string
+	SaltReused bool // a reply datagram started with a salt already used by an earlier reply of this case
 }
 
 type udpTargetMsg struct {
@@ -210,8 +216,19 @@ func runUDPCase(cs *udpCaseSpec) (obs []udpOpObs, tports []int, fatal string, sh
 		clients = append(clients, pc.(*net.UDPConn))
 		defer pc.Close()
 	}
+	other4, _ := net.ListenPacket("udp", "127.0.0.1:0")
+	other6, _ := net.ListenPacket("udp", "[::1]:0")
+	if other4 != nil {
+		defer other4.Close()
+	}
+	if other6 != nil {
+		defer other6.Close()
+	}
+	natPort := map[int]int{}      // client -> source port of its association, as seen at a target
+	natCS := map[int][2]int{}     // client -> cipher and secret of the key that opened its association
+	saltSeen := map[string]bool{} // salts of every reply datagram the clients received
 	portIdx := map[int]int{}
-	nextIdx := 0 // sockets the kernel has handed out to associations so far
+	nextIdx := 0                // sockets the kernel has handed out to associations so far
 	pendingIdx := map[int]int{} // client -> socket index of an association whose first send failed (its port is not known yet)
 	for i := range cs.Ops {
 		op := &cs.Ops[i]
@@ -220,9 +237,88 @@ func runUDPCase(cs *udpCaseSpec) (obs []udpOpObs, tports []int, fatal string, sh
 		if op.Kind == "expire" {
 			time.Sleep(udpNatTimeout + 400*time.Millisecond)
 			pendingIdx = map[int]int{} // every association is gone, also those that never sent
+			natPort = map[int]int{}
+			natCS = map[int][2]int{}
 			for _, e := range rec.snapshot(mark) {
 				if e.Kind == "remove" {
 					ob.Removed++
+				}
+			}
+			obs = append(obs, ob)
+			continue
+		}
+		if op.Kind == "stray" {
+			np, okp := natPort[op.Client]
+			src := other4
+			dst := fmt.Sprintf("127.0.0.1:%d", np)
+			if op.StrayV6 {
+				src, dst = other6, fmt.Sprintf("[::1]:%d", np)
+			}
+			if !okp || src == nil {
+				op.Skipped = true
+				obs = append(obs, ob)
+				continue
+			}
+			op.sport = src.LocalAddr().(*net.UDPAddr).Port
+			da, _ := net.ResolveUDPAddr("udp", dst)
+			body := genBytes(op.PLen, uint32(op.PSeed))
+			src.WriteTo(body, da)
+			c := clients[op.Client]
+			buf := make([]byte, 70000)
+			tr := time.Now()
+			var recv [][]byte
+			for time.Since(tr) < 2500*time.Millisecond {
+				c.SetReadDeadline(time.Now().Add(40 * time.Millisecond))
+				if n, _, err := c.ReadFrom(buf); err == nil {
+					recv = append(recv, append([]byte{}, buf[:n]...))
+					break
+				}
+				dropped := false
+				for _, e := range rec.snapshot(mark) {
+					if e.Kind == "pkttarget" && e.Status != "OK" {
+						dropped = true
+					}
+				}
+				if dropped {
+					break
+				}
+			}
+			time.Sleep(20 * time.Millisecond)
+			op.C, op.S = natCS[op.Client][0], natCS[op.Client][1]
+			akey := mkKey(op.C, op.S)
+			ri := 0
+			for _, e := range rec.snapshot(mark) {
+				if e.Kind == "pkttarget" {
+					ro := udpReplyObs{Status: e.Status, TB: e.A, CB: e.B}
+					if e.Status == "OK" && ri < len(recv) {
+						if len(recv[ri]) >= saltSizes[op.C] {
+							s := string(recv[ri][:saltSizes[op.C]])
+							ob.SaltReused = ob.SaltReused || saltSeen[s]
+							saltSeen[s] = true
+						}
+						if pt, err := shadowsocks.Unpack(nil, recv[ri], akey); err == nil {
+							if a := socks.SplitAddr(pt); a != nil {
+								ro.From = append([]byte{}, a...)
+								ro.Body = append([]byte{}, pt[len(a):]...)
+							}
+						}
+						ri++
+					}
+					ob.Replies = append(ob.Replies, ro)
+				}
+				if e.Kind == "remove" {
+					ob.Removed++
+				}
+			}
+			ob.Unreported = len(recv) - ri
+			// no other client may see it
+			for j, oc := range clients {
+				if j == op.Client {
+					continue
+				}
+				oc.SetReadDeadline(time.Now().Add(time.Millisecond))
+				if _, _, err := oc.ReadFrom(buf); err == nil {
+					ob.Stray++
 				}
 			}
 			obs = append(obs, ob)
@@ -316,6 +412,7 @@ func runUDPCase(cs *udpCaseSpec) (obs []udpOpObs, tports []int, fatal string, sh
 				}
 			}
 			ob.SockIdx = portIdx[m.src.Port]
+			natPort[op.Client] = m.src.Port
 			var recv [][]byte
 			for ri, rp := range op.Replies {
 				targets[m.target].WriteToUDP(genBytes(rp[0], uint32(rp[1])), m.src)
@@ -370,11 +467,17 @@ func runUDPCase(cs *udpCaseSpec) (obs []udpOpObs, tports []int, fatal string, sh
 			case "add":
 				k := e.Key
 				ob.NewKey = &k
+				natCS[op.Client] = [2]int{op.C, op.S}
 			case "pktclient":
 				ob.Report = &e
 			case "pkttarget":
 				ro := udpReplyObs{Status: e.Status, TB: e.A, CB: e.B}
 				if e.Status == "OK" && ri < len(ob.recv) {
+					if len(ob.recv[ri]) >= saltSizes[op.C] {
+						s := string(ob.recv[ri][:saltSizes[op.C]])
+						ob.SaltReused = ob.SaltReused || saltSeen[s]
+						saltSeen[s] = true
+					}
 					if pt, err := shadowsocks.Unpack(nil, ob.recv[ri], key); err == nil {
 						if a := socks.SplitAddr(pt); a != nil {
 							ro.From = append([]byte{}, a...)
@@ -444,6 +547,9 @@ var udpStatusCodes = map[string]int{"OK": 0, "ERR_CIPHER": 1, "ERR_READ_ADDRESS"
 func udpOpTerm(op *udpOp, tports []int) string {
 	if op.Kind == "expire" {
 		return "OExpireAll"
+	}
+	if op.Kind == "stray" {
+		return fmt.Sprintf("OStray %d %s %d %d %d", op.Client+1, cBool(op.StrayV6), op.sport, op.PLen, op.PSeed)
 	}
 	var k string
 	switch op.Kind {
